@@ -10,7 +10,7 @@ RULE = (
     "histories of operations on ONE cutplace.Cid object; operations (each over three small data sets that share key and "
     "value cells): read completely (yield mode + close; raise mode through cutplace.rows), read and abandon after k = 0, 1, "
     "2 items (generator and reader closed, or everything just dropped), read without closing, two complete runs of one Reader, a Reader created before the history begins and read at its turn, reader closed without "
-    "iterating, validate with limit 0, validate, write rows without close, write and close, CutplaceApp.validate (the command line's per-file step) - 60 operations - on CIDs with "
+    "iterating, validate with limit 0, validate, write rows without close, write and close, CutplaceApp.validate (the command line's per-file step) - 63 operations - on CIDs with "
     "IsUnique, DistinctCount, or both (delimited) a fixed CID without a declared line delimiter whose data sets end their lines with CR LF, and a CID whose checks were handed over through Cid.add_check(). Oracle: history + model where the model is the implementation with fresh state: the "
     "outcome of the last operation of every history (items, rejections with row numbers, end-of-data result, written text, "
     "counters) must equal the outcome of the same operation on a freshly loaded CID. Quick: all histories of length <= 2 "
@@ -62,6 +62,7 @@ def operations():
         ops.append(("read-dropping-kept", d))
         # one Reader used for two complete runs (read, close, rewind the stream, read, close)
         ops.append(("read-twice-one-reader", d))
+        ops.append(("read-twice-limit0", d))
         # a Reader that exists since before the first operation of the history (readers = [Reader(cid, f) for f in
         # files], then one after the other): its run begins when its rows are asked for
         ops.append(("read-created-early", d))
@@ -186,6 +187,23 @@ def perform(cid, op, early=None):
         elif kind == "read-twice-one-reader":
             stream = source_for(d, text)
             reader = validio.Reader(cid, stream, on_error="yield")
+            runs = []
+            for _ in range(2):
+                stream.seek(0)
+                items = [err(item) if isinstance(item, Exception) else item for item in reader.rows()]
+                try:
+                    reader.close()
+                    end = None
+                except errors.CutplaceError as e:
+                    end = err(e)
+                runs.append({"items": items, "end": end, "counters": [reader.accepted_rows_count, reader.rejected_rows_count]})
+            out["items"], out["end"], out["counters"] = runs[0]["items"], runs[0]["end"], runs[0]["counters"]
+            out["second_run"] = runs[1]
+        elif kind == "read-twice-limit0":
+            # one Reader under a validation limit of 0, read and closed twice: both runs validate no row, and both are
+            # judged at their end like any run
+            stream = source_for(d, text)
+            reader = validio.Reader(cid, stream, on_error="yield", validate_until=0)
             runs = []
             for _ in range(2):
                 stream.seek(0)
@@ -445,7 +463,7 @@ def run(ctx):
                 if ctx.mine(index):
                     check_history(ctx, cid_kind, history)
     ctx.exhaustive = True
-    ctx.note("exhaustive part: all histories of length <= %d over 60 operations x 4 CIDs; longer histories are sampled" % max_len)
+    ctx.note("exhaustive part: all histories of length <= %d over 63 operations x 4 CIDs; longer histories are sampled" % max_len)
     n = ctx.pick(2500, 20000)
     lo, hi = ctx.pick((3, 4), (5, 8))
     for i in range(n):
